@@ -573,6 +573,15 @@ func c06Directed() []c06Script {
 	rogueWU.rogue = true
 	add("window-update-overflow", def, S(), open(10, true, 0), wu(0, math.MaxInt32-65535), open(10, true, 0), wu(1, math.MaxInt32-65534), feed(0), wu(-1, math.MaxInt32-65535), rogueWU)
 
+	// 11b. the peer's own violations in a SETTINGS frame: MAX_FRAME_SIZE outside [2^14, 2^24),
+	//      INITIAL_WINDOW_SIZE above 2^31-1 - a connection error, nothing applied is used any more
+	for i, bad := range []xhttp2.Setting{c06Set(xhttp2.SettingMaxFrameSize, 16383), c06Set(xhttp2.SettingMaxFrameSize, 1<<24),
+		c06Set(xhttp2.SettingMaxFrameSize, 0), c06Set(xhttp2.SettingInitialWindowSize, 1<<31)} {
+		rogueS := c06Op{kind: "ps", vals: []xhttp2.Setting{c06Set(xhttp2.SettingMaxConcurrentStreams, 7), bad}, rogue: true}
+		add(fmt.Sprintf("bad-settings-%d", i), def, S(), open(50000, true, 0), feed(0), rogueS)
+	}
+	add("bad-settings-first", def, c06Op{kind: "ps", vals: []xhttp2.Setting{c06Set(xhttp2.SettingMaxFrameSize, 100)}, rogue: true})
+
 	// ---- round 4
 	// 12. PING: acknowledged with the same octets, also between the frames of an upload; an
 	//     acknowledgement nobody asked for is ignored
